@@ -226,6 +226,20 @@ MIN_EVALS = {
         'time_match.overlap==master': 51000,
         'time_match.pad=edge-sample': 41000,
         'time_match.values-are-arrays': 110000,
+        # round 3
+        'cluster.member-values-assignment(all-or-nothing)': 2000,
+        'cluster.third-run==first-run': 3200,
+        'rotation.copied-component-memo==fresh': 10000,
+        'rotation.copied-component==original': 17000,
+        'rotation.copy-leaves-original-alone': 10000,
+        'rotation.refused-call-leaves-components-unchanged': 1700,
+        'rotation.third-call==first-call': 7500,
+        'same_start.master-unchanged(master re-assigned after construction)': 11000,
+        'same_start.refused-call-leaves-cluster-unchanged': 4800,
+        'same_start.section-average(index-form)==master': 40000,
+        'section-average(index=True)==mean(samples[start:end])': 210000,
+        'section-average.signal-unchanged': 210000,
+        'time_match.master-unchanged(master re-assigned after construction)': 11000,
     },
 }
 EXHAUSTIVE = {'quick': 'every (cluster size 2..4, master index, lag-sign pattern in {0,+,-}^(size-1)) = 141 patterns, each '
